@@ -314,6 +314,14 @@ func c10UnexpandedImport(o c10Obs, in *c10In) bool {
 				if _, isFile := in.Files[x]; isFile || strings.Contains(all, "("+x+")") {
 					return true
 				}
+				for name := range in.Files { // a glob pattern over files of this input
+					if ok, _ := filepath.Match(x, name); ok {
+						return true
+					}
+					if ok, _ := filepath.Match(x, filepath.Base(name)); ok {
+						return true
+					}
+				}
 			}
 		}
 	}
@@ -523,7 +531,7 @@ func c10Exec(in *c10In) (o c10Obs, globs string) {
 	names := c10Names(in)
 	globs = c10Globs(in, dir, names)
 	if in.Child {
-		ctx, cancel := context.WithTimeout(context.Background(), 40*time.Second)
+		ctx, cancel := context.WithTimeout(context.Background(), 90*time.Second)
 		defer cancel()
 		cmd := exec.CommandContext(ctx, "sh", "-c", "ulimit -v 4000000; exec \"$0\" c10child \"$1\"", os.Args[0], path)
 		cmd.Env = os.Environ()
@@ -875,6 +883,16 @@ func c10Gen(r *Rand, tier string) []interface{} {
 	}
 	for i := 0; i < nRaw; i++ {
 		in := &c10In{Kind: "parse", Tag: "raw", Main: soup(25)}
+		if toks := c10Lex(in.Main); len(toks) > 8 {
+			for k := 0; k+1 < len(toks); k++ {
+				if toks[k+1] == "*" && (toks[k] == "import" || toks[k] == "{$V_IMP}") {
+					// `import *` matches the Casketfile itself: every one of the 10000 imports splices the
+					// whole file again (quadratic, ~40 s for 15 tokens); keep such self-importing soups short
+					in.Main = "import *\n" + soup(5)
+					break
+				}
+			}
+		}
 		if r.Chance(60) {
 			in.Files = map[string]string{"inc1.conf": r.Pick([]string{"dir1 x\n", "dir2 {\n a b\n}\n", "", "b.com {\n}\n", "x y\nimport inc2.conf\n", "}", "{", "dir1 {"}), "inc2.conf": soup(6)}
 			if r.Chance(50) {
@@ -884,8 +902,15 @@ func c10Gen(r *Rand, tier string) []interface{} {
 			if r.Chance(30) {
 				in.Dirs = []string{"adir"}
 			}
-			// soups may import each other cyclically: run those in a child
-			in.Child = strings.Contains(in.Files["inc2.conf"], "import") || strings.Contains(in.Files["sub/z.conf"], "import")
+		}
+		// a soup can import itself (`import *`, `import Casketfile`, mutually importing files): 10000
+		// imports take seconds, so anything that mentions import runs in a child process
+		all := in.Main
+		for _, c := range in.Files {
+			all += c
+		}
+		if strings.Contains(all, "import") || strings.Contains(all, "V_IMP") {
+			in.Child = true
 			in.Text = "soup"
 		}
 		out = append(out, in)
@@ -960,7 +985,11 @@ func c10Gen(r *Rand, tier string) []interface{} {
 		} else {
 			main = c10Mutate(main, r)
 		}
-		out = append(out, &c10In{Kind: "parse", Tag: "malformed", Main: main, Files: files})
+		mal := &c10In{Kind: "parse", Tag: "malformed", Main: main, Files: files}
+		if all := main + fmt.Sprint(files); strings.Contains(all, "import") {
+			mal.Child, mal.Text = true, "damaged"
+		}
+		out = append(out, mal)
 	}
 	// import graphs with a cycle reachable from the main file
 	for i := 0; i < nCyc; i++ {
